@@ -91,12 +91,16 @@ func c15ErrorCases() map[string]interface{} {
 	return map[string]interface{}{
 		"untyped nil": nil, "nil pointer": np, "nil slice": ns, "nil map": nm,
 		"mixed interface slice": []interface{}{1, "a"}, "mixed nested interface slice": []interface{}{[]interface{}{1}, []interface{}{"a"}},
-		"interface slice of structs differing in a field type": []interface{}{struct{ A interface{} }{1}, struct{ A interface{} }{"x"}},
-		"struct slice differing in an interface field":         []struct{ V interface{} }{{1}, {"ten"}},
-		"struct slice with nil and non-nil untagged pointer":   []struct{ P *int }{{new(int)}, {nil}},
-		"nested interface slices differing":                    [][]interface{}{{1, 10}, {"x", "ten"}},
-		"map values differing":                                 map[string]interface{}{"a": 1, "b": "x"},
-		"chan":                                                 make(chan int), "func": func() {}, "complex": complex(1, 2), "uintptr": uintptr(1),
+		"interface slice of structs differing in a field type":       []interface{}{struct{ A interface{} }{1}, struct{ A interface{} }{"x"}},
+		"struct slice differing in an interface field":               []struct{ V interface{} }{{1}, {"ten"}},
+		"struct slice with nil and non-nil untagged pointer":         []struct{ P *int }{{new(int)}, {nil}},
+		"nested interface slices differing":                          [][]interface{}{{1, 10}, {"x", "ten"}},
+		"map values differing":                                       map[string]interface{}{"a": 1, "b": "x"},
+		"typed map of interface slices differing":                    map[string][]interface{}{"a": {1}, "b": {"x"}},
+		"typed map of maps differing":                                map[int]map[string]interface{}{1: {"k": 1}, 2: {"k": "s"}},
+		"typed map of structs with nil and non-nil untagged pointer": map[string]struct{ P *int }{"a": {new(int)}, "b": {nil}},
+		"typed map keyed by interface differing":                     map[interface{}]int{1: 1, "a": 2},
+		"chan":                                                       make(chan int), "func": func() {}, "complex": complex(1, 2), "uintptr": uintptr(1),
 		"struct with chan": unsupported{make(chan int)}, "slice of func": []func(){func() {}}, "map with chan values": map[string]chan int{"a": nil},
 		"map with struct keys":       map[struct{ A int }]int{{1}: 1},
 		"nil inside interface slice": []interface{}{nil}, "nil element pointer": []*int{nil},
